@@ -175,7 +175,7 @@ func setup(sc scenario) {
 	queue.VerifSetPageFactory(w.rec.Wrap(realFctFn))
 	q, err := queue.NewQueue(dir, 0)
 	if err != nil {
-		vevid.Fatal("new queue: %v", err)
+		vevid.OpFailed("new queue: %v", err)
 	}
 	w.q = q
 	for _, sz := range sc.Preload {
